@@ -514,5 +514,13 @@ def r05_11(ctx):
     delegate(ctx, c03.r03_5, lambda c: '_rec_invalidate' in c)
 
 
+def r05_12(ctx):
+    """R05.12 the selected member after a replacing load is the one the file gives: a pick made before the load is dropped before
+    the default-marked choices are resolved (C08 R08.17)."""
+    from . import c08
+    from .common import delegate
+    delegate(ctx, c08.r08_17, lambda c: True)
+
+
 def rules():
-    return [("R05.11", r05_11, 4), ("R05.10", r05_10, 1), ("R05.9", r05_9, 2), ("R05.8", r05_8, 1), ("R05.7", r05_7, 9), ("R05.1", r05_1, 2), ("R05.2", r05_2, 4), ("R05.3", r05_3, 3), ("R05.4", r05_4, 3), ("R05.5", r05_5, 6), ("R05.6", r05_6, 9)]
+    return [("R05.12", r05_12, 1), ("R05.11", r05_11, 4), ("R05.10", r05_10, 1), ("R05.9", r05_9, 2), ("R05.8", r05_8, 1), ("R05.7", r05_7, 9), ("R05.1", r05_1, 2), ("R05.2", r05_2, 4), ("R05.3", r05_3, 3), ("R05.4", r05_4, 3), ("R05.5", r05_5, 6), ("R05.6", r05_6, 9)]
